@@ -318,12 +318,16 @@ inductive Op where
   | deliver (b : Blk) (p : Chain)
   | flushReq
   | flushIfNeeded
+  /-- `FlushUtxoCache(FlushPeriodic)` less than the periodic interval after the last
+      flush: writes when the cache is at its limit, without the "already flushed here" shortcut. -/
+  | flushPeriodic
 deriving DecidableEq, Repr
 
 def step (cfg : Cfg) (nd : Node A) : Op → Node A × Option Res
   | .deliver b p => let (nd, r) := deliver cfg nd b p; (nd, some r)
   | .flushReq => (flushRequired nd, none)
   | .flushIfNeeded => (flushIfNeeded cfg nd nd.tip, none)
+  | .flushPeriodic => (if cfg.cacheAlways then flushRequired nd else emit nd .nop, none)
 
 def runOps (cfg : Cfg) (nd : Node A) (ops : List Op) : Node A :=
   ops.foldl (fun nd o => (step cfg nd o).1) nd
